@@ -99,4 +99,16 @@ CLAIMS = {
                 'exceptions with reasons (placement-new Code objects, GlyphCache box block).  Allocation failure is outside the quantifier.',
         'technique': 'compile-fail witness + CFG typestate/must-pass rules + who-may-call + interprocedural pointer-taint (escape) analysis on LLVM IR',
     },
+    'C13': {
+        'text': 'Glyph ids returned by the cmap lookups are run-time values and are NOT decided.  Decided, as necessary conditions of '
+                '"both lookup paths agree on every code point": the two cmap implementations share one pair of sub-table selectors '
+                '(tabled platform/encoding preference order, every candidate gated by its CheckCmapSubtable*), the cache filler is '
+                'instantiated only with iteration/lookup functions of one format, the (plane, format) routing is identical -- DirectCmap '
+                'splits on usv > 0xFFFF, CachedCmap\'s two fill passes are called with windows (0xFFFF, 0x10FFFF) for format 12 and '
+                '(0, 0xFFFF) for format 4 and store only inside the window -- the pseudo-glyph fallback is consulted exactly when the '
+                'cmap returned 0 at both users, and the cached block table is indexed only under the bounds matching its allocation.',
+        'note': 'Trusted: clang 14 CFG, tools/grfacts, rules/c13.py, rules/dom.py.  The binary-search / group-scan arithmetic inside '
+                'TtfUtil::CmapSubtable4Lookup/12Lookup/NextCodepoint is value-level and out of reach (a seeded off-by-one there is a recorded miss).',
+        'technique': 'sibling cross-check of two implementations (call arguments, guards, selectors) over AST/CFG facts + dominance rules',
+    },
 }
